@@ -193,7 +193,7 @@ theorem shape_Line_Public : Facts.shape_Line_Public = some "gen" := by decide
 theorem shape_Line_Copy : Facts.shape_Line_Copy = some "4bc3e325131cb205" := by decide
 
 /-- [C02] `Line.argslen` is the body the model transcribes -/
-theorem shape_Line_argslen : Facts.shape_Line_argslen = some "831b24e7eab5cc19" := by decide
+theorem shape_Line_argslen : Facts.shape_Line_argslen = some "gen" := by decide
 
 
 /-- [C02,C05,C13,C17,C18,C19] the internal handler table is the one `Go.Client.intHandler` transcribes -/
@@ -249,19 +249,19 @@ theorem shape_Conn_handleCapNak : Facts.shape_Conn_handleCapNak = some "6aa9da37
 theorem shape_Conn_h_CAP : Facts.shape_Conn_h_CAP = some "bd8988bc5e924a43" := by decide
 
 /-- [C19] `Conn.h.410` is the body the model transcribes -/
-theorem shape_Conn_h_410 : Facts.shape_Conn_h_410 = some "ba6a08d6f0d5531d" := by decide
+theorem shape_Conn_h_410 : Facts.shape_Conn_h_410 = some "gen" := by decide
 
 /-- [C19] `Conn.h.AUTHENTICATE` is the body the model transcribes -/
 theorem shape_Conn_h_AUTHENTICATE : Facts.shape_Conn_h_AUTHENTICATE = some "6fcf2b777941f2ba" := by decide
 
 /-- [C19] `Conn.h.903` is the body the model transcribes -/
-theorem shape_Conn_h_903 : Facts.shape_Conn_h_903 = some "0a5365d442c7ce2e" := by decide
+theorem shape_Conn_h_903 : Facts.shape_Conn_h_903 = some "gen" := by decide
 
 /-- [C19] `Conn.h.904` is the body the model transcribes -/
-theorem shape_Conn_h_904 : Facts.shape_Conn_h_904 = some "ccf513620a340920" := by decide
+theorem shape_Conn_h_904 : Facts.shape_Conn_h_904 = some "gen" := by decide
 
 /-- [C19] `Conn.h.908` is the body the model transcribes -/
-theorem shape_Conn_h_908 : Facts.shape_Conn_h_908 = some "54f2697a81d4a77b" := by decide
+theorem shape_Conn_h_908 : Facts.shape_Conn_h_908 = some "gen" := by decide
 
 /-- [C19] `capSet.Clear` (run by `initialise` at every connect) empties the set -/
 theorem shape_capSet_Clear : Facts.shape_capSet_Clear = some "d5a27384d80355f8" := by decide
@@ -286,10 +286,10 @@ theorem shape_capSet_Size : Facts.shape_capSet_Size = some "c8e15fe017984bd6" :=
 theorem pass_read_only_in_register : Facts.cfgPassUsers = some ["ConnectToContext", "h_REGISTER"] := by decide
 
 /-- [C18,C20] `Conn.h.REGISTER` is the body the model transcribes -/
-theorem shape_Conn_h_REGISTER : Facts.shape_Conn_h_REGISTER = some "255f9d900ebf5c03" := by decide
+theorem shape_Conn_h_REGISTER : Facts.shape_Conn_h_REGISTER = some "gen" := by decide
 
 /-- [C18] `Conn.h.PING` is the body the model transcribes -/
-theorem shape_Conn_h_PING : Facts.shape_Conn_h_PING = some "02bfeef3d2f7e297" := by decide
+theorem shape_Conn_h_PING : Facts.shape_Conn_h_PING = some "gen" := by decide
 
 /-- [C18] `hasPort` is the body the model transcribes -/
 theorem shape_hasPort : Facts.shape_hasPort = some "gen" := by decide
@@ -542,7 +542,7 @@ theorem shape_Conn_h_353 : Facts.shape_Conn_h_353 = some "c8b1c7c5aa9b3462" := b
 theorem shape_Conn_h_671 : Facts.shape_Conn_h_671 = some "80efc4f70dec750d" := by decide
 
 /-- [C02,C13] `Conn.h.CTCP` is the body the model transcribes -/
-theorem shape_Conn_h_CTCP : Facts.shape_Conn_h_CTCP = some "0aedd2d57bd72cb7" := by decide
+theorem shape_Conn_h_CTCP : Facts.shape_Conn_h_CTCP = some "gen" := by decide
 
 
 
@@ -554,31 +554,31 @@ the client and state packages that the property's root functions can reach throu
 moves its obligation, however far from the property's anchors it is made. -/
 
 /-- [C01] everything the roots of C01 can reach is as pinned -/
-theorem closure_C01 : Facts.closure_C01 = some "23082452cac14dc5" := by decide
+theorem closure_C01 : Facts.closure_C01 = some "743cd3821b5244aa" := by decide
 
 /-- [C02] everything the roots of C02 can reach is as pinned -/
-theorem closure_C02 : Facts.closure_C02 = some "23082452cac14dc5" := by decide
+theorem closure_C02 : Facts.closure_C02 = some "743cd3821b5244aa" := by decide
 
 /-- [C03] everything the roots of C03 can reach is as pinned -/
-theorem closure_C03 : Facts.closure_C03 = some "a7d7f781ff829967" := by decide
+theorem closure_C03 : Facts.closure_C03 = some "92cd2dfbac222d90" := by decide
 
 /-- [C04] everything the roots of C04 can reach is as pinned -/
-theorem closure_C04 : Facts.closure_C04 = some "23082452cac14dc5" := by decide
+theorem closure_C04 : Facts.closure_C04 = some "743cd3821b5244aa" := by decide
 
 /-- [C05] everything the roots of C05 can reach is as pinned -/
-theorem closure_C05 : Facts.closure_C05 = some "23082452cac14dc5" := by decide
+theorem closure_C05 : Facts.closure_C05 = some "743cd3821b5244aa" := by decide
 
 /-- [C06] everything the roots of C06 can reach is as pinned -/
-theorem closure_C06 : Facts.closure_C06 = some "a7d7f781ff829967" := by decide
+theorem closure_C06 : Facts.closure_C06 = some "92cd2dfbac222d90" := by decide
 
 /-- [C07] everything the roots of C07 can reach is as pinned -/
-theorem closure_C07 : Facts.closure_C07 = some "a7d7f781ff829967" := by decide
+theorem closure_C07 : Facts.closure_C07 = some "92cd2dfbac222d90" := by decide
 
 /-- [C08] everything the roots of C08 can reach is as pinned -/
 theorem closure_C08 : Facts.closure_C08 = some "61e2152ce0aee2a7" := by decide
 
 /-- [C09] everything the roots of C09 can reach is as pinned -/
-theorem closure_C09 : Facts.closure_C09 = some "c472fa68764a4825" := by decide
+theorem closure_C09 : Facts.closure_C09 = some "64eaeb88122e12ff" := by decide
 
 /-- [C10] everything the roots of C10 can reach is as pinned -/
 theorem closure_C10 : Facts.closure_C10 = some "a0c6f16ed96b164b" := by decide
@@ -590,7 +590,7 @@ theorem closure_C11 : Facts.closure_C11 = some "e63f1c046ce3efa8" := by decide
 theorem closure_C12 : Facts.closure_C12 = some "68bd1bedf06165e6" := by decide
 
 /-- [C13] everything the roots of C13 can reach is as pinned -/
-theorem closure_C13 : Facts.closure_C13 = some "8e0adc757fc10dc4" := by decide
+theorem closure_C13 : Facts.closure_C13 = some "6ad8081978964757" := by decide
 
 /-- [C14] everything the roots of C14 can reach is as pinned -/
 theorem closure_C14 : Facts.closure_C14 = some "68bd1bedf06165e6" := by decide
@@ -599,18 +599,18 @@ theorem closure_C14 : Facts.closure_C14 = some "68bd1bedf06165e6" := by decide
 theorem closure_C15 : Facts.closure_C15 = some "eae4d61ba5f0516e" := by decide
 
 /-- [C16] everything the roots of C16 can reach is as pinned -/
-theorem closure_C16 : Facts.closure_C16 = some "a7d7f781ff829967" := by decide
+theorem closure_C16 : Facts.closure_C16 = some "92cd2dfbac222d90" := by decide
 
 /-- [C17] everything the roots of C17 can reach is as pinned -/
-theorem closure_C17 : Facts.closure_C17 = some "e0f59c35a0586129" := by decide
+theorem closure_C17 : Facts.closure_C17 = some "d21fde94adf5bbb3" := by decide
 
 /-- [C18] everything the roots of C18 can reach is as pinned -/
-theorem closure_C18 : Facts.closure_C18 = some "fbaf26566abaaa9e" := by decide
+theorem closure_C18 : Facts.closure_C18 = some "2ea491d2259804f7" := by decide
 
 /-- [C19] everything the roots of C19 can reach is as pinned -/
-theorem closure_C19 : Facts.closure_C19 = some "750f05384be07e75" := by decide
+theorem closure_C19 : Facts.closure_C19 = some "81c369138ea214b4" := by decide
 
 /-- [C20] everything the roots of C20 can reach is as pinned -/
-theorem closure_C20 : Facts.closure_C20 = some "a7d7f781ff829967" := by decide
+theorem closure_C20 : Facts.closure_C20 = some "92cd2dfbac222d90" := by decide
 
 end FactsCheck
